@@ -283,7 +283,7 @@ func c11Gen(tpls []string, only string, bursts string) []byte {
 	return []byte(fmt.Sprintf("---- MODULE ConcurrencyGen ----\nEXTENDS Concurrency\nGenTpls == {%s}\nGenOnly == %s\nGenBursts == %s\n====\n", strings.Join(q, ", "), only, bursts))
 }
 
-var c11Templates = []string{"kv", "ann", "lm", "ver", "nj", "nl", "mut", "cli", "mcli", "vox", "annsync"}
+var c11Templates = []string{"kv", "ann", "lm", "ver", "nj", "nl", "mut", "cli", "mcli", "vox", "annsync", "verx"}
 
 // template wc (write || commit || reader, 3 requests) is explored by its own TLC runs
 var c11WcOn = true
@@ -336,6 +336,8 @@ type c11Env struct {
 	resps []node.Resp
 	cs    *c11Key
 	grow  *c11GrowEnv // templates of c11_grow.go
+	vxP   string      // template verx (c11_verx.go): the version the requests address
+	vxQ   string      // ... and its committed sibling (second parent of the version merge)
 }
 
 func c11Do(n *node.Node, method, url string, body []byte, what string) node.Resp {
@@ -423,6 +425,9 @@ func c11Setup(n *node.Node, repo *string, key *c11Key, nsv, nlab int) *c11Env {
 	var pre map[string]interface{}
 	json.Unmarshal(key.Pre, &pre)
 	switch key.Tpl {
+	case "verx":
+		c11VxSetup(env, pre)
+		return env
 	case "ver":
 		env.root = c11NewRepo(n)
 		c11Do(n, "POST", "/api/node/"+env.root+"/commit", []byte(`{"note":"c11"}`), "commit root")
@@ -499,6 +504,8 @@ func c11Request(env *c11Env, r c11Rq) node.Req {
 	base := "/api/node/" + env.root + "/" + env.inst
 	who := r.num("who")
 	switch env.cs.Tpl {
+	case "verx":
+		return c11VxRequest(env, r)
 	case "kv":
 		if r.str("k") == "put" {
 			return env.n.MkReq("POST", base+"/key/k", []byte(fmt.Sprintf("v%d", 10+who)))
@@ -622,6 +629,8 @@ func c11Observe(env *c11Env) interface{} {
 		return r
 	}
 	switch env.cs.Tpl {
+	case "verx":
+		return c11VxObserve(env)
 	case "kv":
 		r := get(base+"/key/k", nil)
 		if r.Status == 404 {
@@ -1223,6 +1232,22 @@ func c11GenBurst(rng *rand.Rand, tpl string) *c11Burst {
 					fmt.Sprintf(`[k |-> "post", elems |-> {[pos |-> %d, tags |-> %s]}, who |-> WHO]`, pos, tlaIntSet(tags)))
 			}
 		}
+	case "nj2v", "ann2v", "annc2v":
+		// gap C11-7: two bursts of the template against two open sibling versions of one instance, in one
+		// concurrent batch (per-version in-memory databases, version-keyed element lists); each is judged on
+		// its own version against its own sequential orders
+		base := strings.TrimSuffix(tpl, "2v")
+		b1 := c11GenBurst(rng, base)
+		b2 := c11GenBurst(rng, base)
+		for i := 0; i < 50 && b2.Pre != b1.Pre; i++ {
+			b2 = c11GenBurst(rng, base)
+		}
+		if b2.Pre != b1.Pre {
+			return b1
+		}
+		b1.TwoVer, b2.TwoVer = true, true
+		b1.Pair = b2
+		return b1
 	case "lm2v":
 		// merges only (no label allocation, which is repo-wide): the same kind of burst on two sibling versions
 		b.Tpl = "lm"
@@ -1753,6 +1778,12 @@ func checkC11(c *Ctx) int {
 		}
 		if t == "lm" {
 			burstKinds = append(burstKinds, "lm2v")
+		}
+		if t == "nj" {
+			burstKinds = append(burstKinds, "nj2v")
+		}
+		if t == "ann" {
+			burstKinds = append(burstKinds, "ann2v", "annc2v")
 		}
 	}
 	for i := 0; i < nb && len(burstKinds) > 0; i++ {
